@@ -284,7 +284,7 @@ fn main() {
     let (seed, tier) = (args.seed, args.tier);
     let from: usize = args.extra.get("from").and_then(|s| s.parse().ok()).unwrap_or(0);
     let n = args.extra.get("to").and_then(|s| s.parse::<usize>().ok()).map(|t| t - from).unwrap_or(n);
-    let rs = run_cases(n, args.threads, |i| dispatch(i + from, seed, tier));
+    let rs = run_cases_isolated(n, args.threads, |i| dispatch(i + from, seed, tier));
     rep.add_all(rs);
     rep.finish(args.tier.pick(10_000, 200_000));
 }
